@@ -20,8 +20,8 @@ import random
 
 ID = "C01"
 DRIVER = "drv_c01"
-LEAN_TARGETS = ["PharmpyProofs.C01.Properties", "PharmpyProofs.C01.PropertiesAdvan", "PharmpyProofs.C01.PropertiesOmega", "PharmpyProofs.C01.PropertiesDes", "drv_c01"]
-PROPERTIES = ["PharmpyProofs/C01/Properties.lean", "PharmpyProofs/C01/PropertiesAdvan.lean", "PharmpyProofs/C01/PropertiesOmega.lean", "PharmpyProofs/C01/PropertiesDes.lean"]
+LEAN_TARGETS = ["PharmpyProofs.C01.Properties", "PharmpyProofs.C01.PropertiesAdvan", "PharmpyProofs.C01.PropertiesOmega", "PharmpyProofs.C01.PropertiesDes", "PharmpyProofs.C01.PropertiesRates", "drv_c01"]
+PROPERTIES = ["PharmpyProofs/C01/Properties.lean", "PharmpyProofs/C01/PropertiesAdvan.lean", "PharmpyProofs/C01/PropertiesOmega.lean", "PharmpyProofs/C01/PropertiesDes.lean", "PharmpyProofs/C01/PropertiesRates.lean"]
 LEAN_SOURCES = ["PharmpyModel/C01/*.lean", "PharmpyModel/Generated/Advan.lean", "PharmpyProofs/C01/*.lean", "Drivers/C01.lean"]
 TIME_LIMIT = {"quick": 900, "thorough": 3000}
 CASE_CPU_LIMIT = 60
@@ -57,7 +57,7 @@ FUNCS = ["EXP", "LOG", "SQRT", "ABS"]
 
 
 def budget(tier):
-    return int(os.environ.get("VERIF_BUDGET", 0)) or {"quick": 360, "thorough": 6000}[tier]
+    return int(os.environ.get("VERIF_BUDGET", 0)) or {"quick": 360, "thorough": 5000}[tier]
 
 
 def translators():
@@ -354,6 +354,15 @@ def shrink(case):
         return
     if case.get("kind") == "des":
         yield from shrink_des(case)
+        return
+    if case.get("kind") == "linear":
+        for key in ("decoys", "flows", "outs"):
+            for i in range(len(case.get(key, []))):
+                if key != "decoys" and len(case[key]) <= 1:
+                    continue
+                c = dict(case)
+                c[key] = case[key][:i] + case[key][i + 1:]
+                yield c
         return
     if case.get("kind") != "prog":
         return
@@ -2061,9 +2070,31 @@ def g_linear_case(rng, seed):
     rng.shuffle(pairs)
     flows = sorted(pairs[:rng.randint(n - 1, min(len(pairs), n + 2))])
     outs = sorted(rng.sample(range(1, n + 1), rng.randint(1, n)))
-    return {"kind": "linear", "advan": rng.choice(["ADVAN5", "ADVAN7"]), "names": names, "defdose": rng.randint(1, n),
-            "defobs": rng.choice([None, rng.randint(1, n)]), "flows": [list(f) for f in flows], "outs": outs,
-            "kt": rng.random() < 0.3, "obs": [rng.randint(1, n), rng.randint(1, n)], "seed": seed}
+    kt = rng.random() < 0.3
+    # ordinary $PK variables whose names are adversarial to the name-based recognisers of the reader:
+    # a reserved name as proper prefix / suffix / infix; placed before or after the genuine definitions
+    genuine = [(f"K{i}T{j}" if kt else f"K{i}{j}") for (i, j) in flows] + [(f"K{i}T0" if kt else f"K{i}0") for i in outs]
+    absent = [(i, j) for (i, j) in pairs if (i, j) not in flows] + [(i, 0) for i in range(1, n + 1) if i not in outs]
+    pool = []
+    for g in genuine:
+        pool += [g + "X", g + "HL", "X" + g, g + "TOT", "T" + g]
+    for (i, j) in absent[:3]:
+        pool += [f"K{i}{j}D", f"K{i}T{j}X"]
+    dose, obs = rng.randint(1, n), rng.choice([None, rng.randint(1, n)])
+    for q in range(1, n + 1):
+        pool += [f"S{q}A", f"F{q}B", f"ALAG{q}X", f"R{q}T", f"D{q}X", f"XS{q}", f"XF{q}"]
+    pool += ["KA1", "KTR", "THETA1", "A_0X", "A1", "SC1", "TK12"]
+    decoys = [[nm, rng.choice(["before", "after"])] for nm in rng.sample(sorted(set(pool)), rng.randint(0, 5))]
+    return {"kind": "linear", "advan": rng.choice(["ADVAN5", "ADVAN7"]), "names": names, "defdose": dose,
+            "defobs": obs, "flows": [list(f) for f in flows], "outs": outs,
+            "kt": kt, "obs": [rng.randint(1, n), rng.randint(1, n)], "decoys": decoys, "seed": seed}
+
+
+def Rates_like(nm):
+    """does the name have a rate-constant name as a proper prefix?"""
+    import re
+    m = re.match(r"K\d+(T\d+)?", nm)
+    return bool(m) and m.end() < len(nm)
 
 
 def run_linear(case, drv):
@@ -2080,7 +2111,13 @@ def run_linear(case, drv):
         rates[(i, j)] = f"K{i}T{j}" if case["kt"] else f"K{i}{j}"
     for i in case["outs"]:
         rates[(i, 0)] = f"K{i}T0" if case["kt"] else f"K{i}0"
-    pk = "\n".join(f"{nm} = THETA({(q % 4) + 1})*{q + 2}" for q, nm in enumerate(rates.values()))
+    pk_lines = [f"{nm} = THETA({(q % 4) + 1})*{q + 2}" for q, nm in enumerate(rates.values())]
+    decoys = case.get("decoys", [])
+    before = [f"{nm} = THETA({(q % 4) + 1})*{q + 11}" for q, (nm, pos) in enumerate(decoys) if pos == "before"]
+    after = [f"{nm} = THETA({(q % 4) + 1})*{q + 17}" for q, (nm, pos) in enumerate(decoys) if pos == "after"]
+    pk = "\n".join(before + pk_lines + after)
+    for nm, pos in decoys:
+        tags.append("decoy:" + ("rate-prefix" if Rates_like(nm) else "other") + ":" + pos)
     o1, o2 = case["obs"]
     text = ("$PROBLEM c01\n$INPUT ID TIME AMT DV\n$DATA c01.csv IGNORE=@\n"
             f"$SUBROUTINES {case['advan']} TRANS1\n$MODEL " + " ".join(comps) + f"\n$PK\n{pk}\nV1 = THETA(1)\n$ERROR\nIPRED = A({o1})/V1\n"
@@ -2092,6 +2129,18 @@ def run_linear(case, drv):
         return {"k": k, "mon": mon, "tags": tags, "nontrivial": True}
     cs = model.statements.ode_system
     order = {f"A_{nme}(t)": i for i, nme in enumerate(names, 1)}
+    # ---- K (h): _find_rates vs the Lean exact-match recogniser
+    if drv is not None:
+        from pharmpy.model.external.nonmem.advan import _find_rates
+        cstream = model.internals.control_stream
+        pknames = [str(st.symbol) for st in cstream.get_records("PK")[0].statements]
+        try:
+            code_rates = [[str(f), str(t_), str(sym)] for f, t_, sym in _find_rates(cstream, n + 1)]
+        except Exception as e:
+            code_rates = ["err", "raises"]
+        lean_rates = drv.ask(["findrates", n + 1, pknames])
+        if lean_rates != code_rates:
+            k.append(f"_find_rates: model {lean_rates}, code {code_rates} for $PK names {pknames}")
     for trial in range(3):
         th = {q: sympy.Rational(rng.randint(1, 12), rng.choice([1, 2, 3])) for q in range(1, 5)}
         A = {i: sympy.Rational(rng.randint(1, 40), rng.choice([1, 2, 3, 5])) for i in range(1, n + 1)}
@@ -2127,6 +2176,10 @@ def run_linear(case, drv):
     fl = [s for s in model.statements.after_odes if str(s.symbol) == "F"]
     if not fl or str(fl[0].expression) != f"A_{names[dflt_obs - 1]}(t)":
         mon.append({"cls": "linear-default-observation", "what": f"F = {fl[0].expression if fl else None}, default observation compartment is {names[dflt_obs - 1]}\n{text}"})
+    odd = [(c, str(cs.find_compartment(c).lag_time), str(cs.find_compartment(c).bioavailability)) for c in names
+           if str(cs.find_compartment(c).lag_time) != "0" or str(cs.find_compartment(c).bioavailability) != "1"]
+    if odd:
+        mon.append({"cls": "linear-lag-bioavailability", "what": f"$PK defines no ALAGn / Fn, the model object has (compartment, lag, F) {odd}\n{text}"})
     dosed = [c for c in names if len(cs.find_compartment(c).doses) > 0]
     if dosed != [names[case["defdose"] - 1]]:
         mon.append({"cls": "linear-default-dose", "what": f"dosed compartments {dosed}, DEFDOSE is {names[case['defdose'] - 1]}\n{text}"})
